@@ -76,7 +76,10 @@ def isNoProxyHostL (hostname : Str) (noProxy : List Str) : Except Exn Bool :=
   else
     .ok ((noProxy.filter (fun d => ['.'].isPrefixOf d)).any fun domain =>
       let endDomain := lstripChar '.' domain
-      hostname == endDomain || ('.' :: endDomain).isSuffixOf hostname)
+      -- repaired: `hostname == endDomain or hostname.endswith("." + endDomain)`;
+      -- before:   `hostname.endswith(endDomain)`            (generated shape fact)
+      if Gen.noProxyLabelBoundary then hostname == endDomain || ('.' :: endDomain).isSuffixOf hostname
+      else endDomain.isSuffixOf hostname)
 
 /-- `_is_no_proxy_host(hostname, no_proxy)` -/
 def isNoProxyHost (hostname : Str) (noProxy : List Str) (env : Env) : Except Exn Bool :=
